@@ -31,6 +31,13 @@ func genWS(cfg Config, emit func(string, bool, []string)) {
 		var ops []string
 		add := func(f string, a ...any) { ops = append(ops, fmt.Sprintf(f, a...)) }
 		nch := 2 + r.IntN(7)
+		if c%100 == 57 {
+			// two goroutines waiting on ONE set at the same time (real time, outside the bubble: a
+			// goroutine blocked on the set's mutex is not durably blocked)
+			add("twowait %d %d", 64+r.IntN(96), 3)
+			emit("ws realtime two-waiters", true, ops)
+			continue
+		}
 		if c%5 == 4 {
 			// a channel that was returned (and removed) is added again after a Merge restored the set's
 			// size: the second Add must take effect
@@ -381,6 +388,74 @@ func (e *wsExec) Do(o *Out, f []string) string {
 			res = strings.Join(p, ",")
 		}
 		return fmt.Sprintf("%s err=%v t=%d", res, err != nil, t1)
+	case "twowait":
+		n, _ := strconv.Atoi(f[1])
+		rounds, _ := strconv.Atoi(f[2])
+		for round := 0; round < rounds; round++ {
+			ws := statedb.NewWatchSet()
+			chans := make([]chan struct{}, n)
+			for i := range chans {
+				chans[i] = make(chan struct{})
+				ws.Add(chans[i])
+			}
+			idx := map[<-chan struct{}]int{}
+			for i, c := range chans {
+				idx[c] = i
+			}
+			type res struct {
+				got []<-chan struct{}
+				err error
+			}
+			results := make(chan res, 2)
+			for w := 0; w < 2; w++ {
+				go func() {
+					got, err := ws.Wait(context.Background(), 0)
+					results <- res{got, err}
+				}()
+			}
+			time.Sleep(120 * time.Millisecond)
+			closed := map[int]bool{}
+			for step := 0; step < 2; step++ {
+				k := (7*round + 31*step + 3) % n
+				for closed[k] {
+					k = (k + 1) % n
+				}
+				close(chans[k])
+				closed[k] = true
+				var rr res
+				select {
+				case rr = <-results:
+				case <-time.After(10 * time.Second):
+					o.Fail("C20", "wait-does-not-return", map[string]string{"waiters": "2"}, fmt.Sprintf("round %d: member %d closed but neither of two concurrent Wait calls returned within 10s", round, k))
+					return "stuck"
+				}
+				if rr.err != nil {
+					o.Fail("C20", "unexpected-error", map[string]string{"waiters": "2"}, fmt.Sprintf("round %d: Wait returned error %v without a context ending", round, rr.err))
+				}
+				for _, c := range rr.got {
+					i, member := idx[c]
+					if !member {
+						o.Fail("C20", "returned-non-member", map[string]string{"waiters": "2"}, fmt.Sprintf("round %d: Wait returned a channel that was never added", round))
+						continue
+					}
+					if !closed[i] {
+						o.Fail("C20", "returned-open-channel", map[string]string{"waiters": "2"}, fmt.Sprintf("round %d: with two goroutines waiting on one set, Wait returned member #%d which is NOT closed (closed members: %v)", round, i, keysInt(closed)))
+					}
+					if ws.Has(c) {
+						o.Fail("C20", "returned-channel-still-in-set", map[string]string{"waiters": "2"}, fmt.Sprintf("round %d: returned member #%d is still in the set", round, i))
+					}
+				}
+				if len(rr.got) == 0 && rr.err == nil {
+					o.Fail("C20", "empty-result-without-error", map[string]string{"waiters": "2"}, fmt.Sprintf("round %d: Wait returned no channel and no error", round))
+				}
+			}
+			for i, c := range chans {
+				if !closed[i] && !ws.Has(c) {
+					o.Fail("C20", "open-member-dropped", map[string]string{"waiters": "2"}, fmt.Sprintf("round %d: member #%d was neither closed nor returned but is no longer in the set", round, i))
+				}
+			}
+		}
+		return "ok"
 	case "hasany":
 		var cs []<-chan struct{}
 		want := false
@@ -413,4 +488,13 @@ func (e *wsExec) Do(o *Out, f []string) string {
 		return strings.Join(p, ",")
 	}
 	return "bad-op"
+}
+
+func keysInt(m map[int]bool) []int {
+	var out []int
+	for k := range m {
+		out = append(out, k)
+	}
+	sort.Ints(out)
+	return out
 }
